@@ -615,7 +615,11 @@ func vpHistory(t *testing.T, penc, eenc *json.Encoder, hist int, rng *rand.Rand,
 				}
 				p := rng.Perm(len(free))
 				x, y := free[p[0]], free[p[1]]
-				for _, in := range [][]coin.UxOut{{x}, {x, y}, {y}} {
+				mid := []coin.UxOut{x, y}
+				if rng.Intn(2) == 0 {
+					mid = []coin.UxOut{y, x} // the input shared with the LATER transaction first
+				}
+				for _, in := range [][]coin.UxOut{{x}, mid, {y}} {
 					if txn, ok := mk(P, []string{"normal", "fee-exact"}[rng.Intn(2)], in, burn); ok {
 						kinds[txn.Hash().Hex()] = "chain"
 						batch = append(batch, txn)
